@@ -167,3 +167,175 @@ Proof.
       apply (C1 x Hx); [intros [[]|[]]|exact Hn|exact Hc]. }
   destruct Hv as [Hd|Ha]; [exact Hd|]. destruct I1 as [_ Haux]. rewrite (Haux y Ha) in Hy. discriminate.
 Qed.
+
+(* ---------- the fuel suffices ---------- *)
+Definition pend (c : ctxt) (aux : list nat) (x : nat) : bool :=
+  is_single (get c x) && has_dep (get c x) && negb (mem x aux).
+Definition todo (c : ctxt) (s : st) : nat :=
+  length (s_ctx s) + length (filter (pend c (s_aux s)) (seq 0 (length c))).
+
+Lemma filter_lt {A} (p q : A -> bool) (l : list A) m :
+  (forall x, q x = true -> p x = true) -> In m l -> p m = true -> q m = false ->
+  length (filter q l) < length (filter p l).
+Proof.
+  intros Hqp. induction l as [|a l IH]; intros Hin Hp Hq; [destruct Hin|].
+  assert (Hle : forall l0, length (filter q l0) <= length (filter p l0)).
+  { induction l0 as [|b l0 IHl]; cbn [filter]; [lia|].
+    destruct (q b) eqn:Eq; [rewrite (Hqp b Eq); cbn [length]; lia|]. destruct (p b); cbn [length]; lia. }
+  cbn [filter]. destruct Hin as [->|Hin].
+  - rewrite Hp, Hq. cbn [length]. specialize (Hle l). lia.
+  - specialize (IH Hin Hp Hq). destruct (q a) eqn:Eq; [rewrite (Hqp a Eq); cbn [length]; lia|].
+    destruct (p a); cbn [length]; lia.
+Qed.
+
+Lemma filter_disjoint_le {A} (p q : A -> bool) (l : list A) :
+  (forall x, p x = true -> q x = false) -> length (filter p l) + length (filter q l) <= length l.
+Proof.
+  intro H. induction l as [|a l IH]; cbn [filter length]; [lia|].
+  destruct (p a) eqn:Ep; [rewrite (H a Ep); cbn [length]; lia|]. destruct (q a); cbn [length]; lia.
+Qed.
+
+Lemma has_dep_lt c x : has_dep (get c x) = true -> x < length c.
+Proof.
+  intro H. destruct (Nat.lt_ge_cases x (length c)) as [Hl|Hg]; [exact Hl|].
+  unfold get in H. rewrite nth_overflow in H by exact Hg. discriminate.
+Qed.
+
+Lemma fold_fuel f c
+  (IH : forall m s, todo c s < f -> s_fuel_out s = false ->
+        s_fuel_out (dep_r f c m s) = false /\ todo c (dep_r f c m s) <= todo c s) :
+  forall l s, todo c s < f -> s_fuel_out s = false ->
+  s_fuel_out (fold_left (fun acc i => dep_r f c i acc) l s) = false /\
+  todo c (fold_left (fun acc i => dep_r f c i acc) l s) <= todo c s.
+Proof.
+  induction l as [|i l IHl]; intros s Ht Hf; cbn [fold_left]; [split; [exact Hf|lia]|].
+  destruct (IH i s Ht Hf) as [H1 H2]. destruct (IHl (dep_r f c i s) ltac:(lia) H1) as [H3 H4]. split; [exact H3|lia].
+Qed.
+
+Lemma dep_r_fuel f : forall c m s,
+  todo c s < f -> s_fuel_out s = false ->
+  s_fuel_out (dep_r f c m s) = false /\ todo c (dep_r f c m s) <= todo c s.
+Proof.
+  induction f as [|f IH]; intros c m s Ht Hf; [lia|]. cbn [dep_r].
+  pose proof (fold_fuel f c (IH c)) as FF.
+  assert (Hsome : forall s1, todo c s1 < f -> todo c s1 <= todo c s -> s_fuel_out s1 = false ->
+            s_fuel_out (fold_left (fun acc i => dep_r f c i acc) (importers c m)
+                          (fold_left (fun acc i => dep_r f c i acc) (m_imports (get c m)) s1)) = false /\
+            todo c (fold_left (fun acc i => dep_r f c i acc) (importers c m)
+                      (fold_left (fun acc i => dep_r f c i acc) (m_imports (get c m)) s1)) <= todo c s).
+  { intros s1 H1 H1' F1. destruct (FF (m_imports (get c m)) s1 H1 F1) as [F2 T2].
+    assert (H2 : todo c (fold_left (fun acc i => dep_r f c i acc) (m_imports (get c m)) s1) < f) by lia.
+    destruct (FF (importers c m) _ H2 F2) as [F3 T3]. split; [exact F3|lia]. }
+  destruct (is_single (get c m)) eqn:Hs.
+  - destruct (negb (has_dep (get c m))) eqn:Hd; [split; [exact Hf|lia]|].
+    destruct (mem m (s_aux s)) eqn:Hm; [split; [exact Hf|lia]|].
+    assert (Hdep : has_dep (get c m) = true) by (destruct (has_dep (get c m)); [reflexivity|discriminate]).
+    assert (Hlt : length (filter (pend c (s_aux s ++ [m])) (seq 0 (length c))) <
+                  length (filter (pend c (s_aux s)) (seq 0 (length c)))).
+    { apply (filter_lt _ _ _ m).
+      - intros x Hx. unfold pend in *. apply andb_true_iff in Hx. destruct Hx as [Hx1 Hx2]. rewrite Hx1. cbn [andb].
+        destruct (mem x (s_aux s)) eqn:E; [|reflexivity]. exfalso.
+        assert (E2 : mem x (s_aux s ++ [m]) = true) by (apply mem_In, in_or_app; left; apply mem_In; exact E).
+        rewrite E2 in Hx2. discriminate.
+      - apply in_seq. pose proof (has_dep_lt c m Hdep). lia.
+      - unfold pend. rewrite Hs, Hdep, Hm. reflexivity.
+      - unfold pend. assert (E2 : mem m (s_aux s ++ [m]) = true) by (apply mem_In, in_or_app; right; left; reflexivity).
+        rewrite E2. rewrite andb_false_r. reflexivity. }
+    apply Hsome; unfold todo in *; cbn [s_ctx s_aux s_fuel_out] in *; try lia; try exact Hf.
+  - destruct (negb (mem m (s_ctx s))) eqn:Hm; [split; [exact Hf|lia]|].
+    assert (Hin : In m (s_ctx s)) by (apply mem_In; destruct (mem m (s_ctx s)); [reflexivity|discriminate]).
+    assert (Hlt : length (remove1 m (s_ctx s)) < length (s_ctx s)).
+    { unfold remove1. rewrite <- (filter_length_le (fun _ => true) (s_ctx s)) at 2 || idtac.
+      assert (Hall : filter (fun _ : nat => true) (s_ctx s) = s_ctx s).
+      { clear. induction (s_ctx s) as [|a l IHl]; cbn [filter]; [reflexivity|rewrite IHl; reflexivity]. }
+      rewrite <- Hall at 2. apply (filter_lt _ _ _ m); auto. rewrite Nat.eqb_refl. reflexivity. }
+    apply Hsome; unfold todo in *; cbn [s_ctx s_aux s_fuel_out] in *; try lia; try exact Hf.
+Qed.
+
+Theorem dep_fuel_suffices c m : dep_fuel_out c m = false.
+Proof.
+  unfold dep_fuel_out. apply dep_r_fuel; [|reflexivity]. unfold todo. cbn [s_ctx s_aux].
+  pose proof (filter_disjoint_le (fun i => negb (is_single (get c i))) (pend c []) (seq 0 (length c))) as H.
+  rewrite seq_length in H. assert (Hd : forall x, negb (is_single (get c x)) = true -> pend c [] x = false).
+  { intros x Hx. unfold pend. destruct (is_single (get c x)); [discriminate|reflexivity]. }
+  specialize (H Hd). lia.
+Qed.
+
+(* ---------- everything in the set is reachable ---------- *)
+Definition Sound (c : ctxt) (m0 : nat) (s : st) : Prop :=
+  (forall v, vis s v -> reach c m0 v) /\
+  (forall x, In x (s_ctx s) -> x < length c) /\
+  (forall x, In x (s_dep s) -> is_single (get c x) = false).
+
+Lemma remove1_sub x y l : In y (remove1 x l) -> In y l.
+Proof. unfold remove1. intro H. apply filter_In in H. tauto. Qed.
+
+Lemma fold_sound f c m0
+  (IH : forall x s, Sound c m0 s -> (can c x -> reach c m0 x) -> Sound c m0 (dep_r f c x s)) :
+  forall l s, Sound c m0 s -> (forall i, In i l -> can c i -> reach c m0 i) ->
+  Sound c m0 (fold_left (fun acc i => dep_r f c i acc) l s).
+Proof.
+  induction l as [|i l IHl]; intros s Hs Hl; cbn [fold_left]; [exact Hs|].
+  apply IHl; [apply IH; [exact Hs|apply Hl; left; reflexivity]|]. intros j Hj. apply Hl. right. exact Hj.
+Qed.
+
+Lemma dep_r_sound f : forall c m0 x s,
+  Sound c m0 s -> (can c x -> reach c m0 x) -> Sound c m0 (dep_r f c x s).
+Proof.
+  induction f as [|f IH]; intros c m0 x s Hs Hx; cbn [dep_r].
+  - destruct Hs as (H1 & H2 & H3). repeat split; assumption.
+  - pose proof (fold_sound f c m0 (IH c m0)) as FS.
+    assert (Hsome : forall s1, Sound c m0 s1 -> reach c m0 x ->
+              Sound c m0 (fold_left (fun acc i => dep_r f c i acc) (importers c x)
+                            (fold_left (fun acc i => dep_r f c i acc) (m_imports (get c x)) s1))).
+    { intros s1 H1 Hr. apply FS; [apply FS; [exact H1|]|].
+      - intros i Hi Hc. apply (ReachStep c m0 x i Hr); [left; exact Hi|exact Hc].
+      - intros i Hi Hc. apply importers_In in Hi. apply (ReachStep c m0 x i Hr); [right; exact Hi|exact Hc]. }
+    destruct Hs as (H1 & H2 & H3).
+    destruct (is_single (get c x)) eqn:Hsg.
+    + destruct (negb (has_dep (get c x))) eqn:Hd; [repeat split; assumption|].
+      destruct (mem x (s_aux s)) eqn:Hm; [repeat split; assumption|].
+      assert (Hdep : has_dep (get c x) = true) by (destruct (has_dep (get c x)); [reflexivity|discriminate]).
+      assert (Hlt : x < length c).
+      { destruct (Nat.lt_ge_cases x (length c)) as [Hl|Hg]; [exact Hl|]. unfold get in Hdep.
+        rewrite nth_overflow in Hdep by exact Hg. discriminate. }
+      assert (Hr : reach c m0 x) by (apply Hx; split; [exact Hlt|right; exact Hdep]).
+      apply Hsome; [|exact Hr]. split; [|split]; cbn [s_ctx s_dep s_aux]; [|exact H2|exact H3].
+      intros v [Hv|Hv]; cbn [s_dep s_aux] in Hv; [apply H1; left; exact Hv|].
+      apply in_app_or in Hv. destruct Hv as [Hv|[<-|[]]]; [apply H1; right; exact Hv|exact Hr].
+    + destruct (negb (mem x (s_ctx s))) eqn:Hm; [repeat split; assumption|].
+      assert (Hin : In x (s_ctx s)) by (apply mem_In; destruct (mem x (s_ctx s)); [reflexivity|discriminate]).
+      assert (Hr : reach c m0 x) by (apply Hx; split; [exact (H2 x Hin)|left; exact Hsg]).
+      apply Hsome; [|exact Hr]. split; [|split]; cbn [s_ctx s_dep s_aux].
+      * intros v [Hv|Hv]; cbn [s_dep s_aux] in Hv; [|apply H1; right; exact Hv].
+        apply in_app_or in Hv. destruct Hv as [Hv|[<-|[]]]; [apply H1; left; exact Hv|exact Hr].
+      * intros y Hy. apply H2. exact (remove1_sub x y _ Hy).
+      * intros y Hy. apply in_app_or in Hy. destruct Hy as [Hy|[<-|[]]]; [exact (H3 y Hy)|exact Hsg].
+Qed.
+
+Theorem dep_set_sound c m y :
+  m < length c -> is_single (get c m) = false -> In y (dep_set_of c m) ->
+  reach c m y /\ is_single (get c y) = false.
+Proof.
+  intros Hm Hs Hy. unfold dep_set_of in Hy.
+  set (ctx_set := filter (fun i => negb (is_single (get c i))) (seq 0 (length c))) in *.
+  assert (Hin : mem m ctx_set = true).
+  { apply mem_In. unfold ctx_set. apply filter_In. split; [apply in_seq; lia|rewrite Hs; reflexivity]. }
+  rewrite Hin in Hy. cbn [negb] in Hy.
+  set (s0 := Build_st ctx_set [] [] false) in *.
+  assert (S0 : Sound c m s0).
+  { split; [|split]; cbn [s_ctx s_dep s_aux]; [intros v [[]|[]]| |intros x []].
+    intros x Hx. unfold ctx_set in Hx. apply filter_In in Hx. destruct Hx as [Hx _]. apply in_seq in Hx. lia. }
+  destruct (dep_r_sound (S (length c)) c m m s0 S0 (fun _ => ReachRefl c m)) as (R1 & _ & R3).
+  split; [apply R1; left; exact Hy|exact (R3 y Hy)].
+Qed.
+
+(* ---------- the set is exactly the reach-closure restricted to modules that are not single-module sets ---------- *)
+Theorem dep_set_exact c m y :
+  m < length c -> is_single (get c m) = false ->
+  (In y (dep_set_of c m) <-> reach c m y /\ is_single (get c y) = false).
+Proof.
+  intros Hm Hs. split.
+  - exact (dep_set_sound c m y Hm Hs).
+  - intros [Hr Hy]. exact (dep_set_closed c m y Hm Hs (dep_fuel_suffices c m) Hr Hy).
+Qed.
